@@ -11,6 +11,7 @@ import shlex
 from hypothesis import strategies as st
 
 from ..core import Check, Violation
+from .. import fuzz as _fuzz
 from ..gen import values as V
 from ..ref import jsonstrict
 from .. import util
@@ -401,4 +402,6 @@ CHECKS = [
     Check("parse_json_yaml", check_json, json_case, quick=400, thorough=12000),
     Check("parse_yaml_total", check_yaml_total, yaml_case, quick=300, thorough=10000),
     Check("encode_hash_escape", check_bytes, bytes_case, quick=200, thorough=6000),
+    _fuzz.replay_check(["textparsers"]),
 ]
+FUZZ = [("textparsers", 500_000, 300)]
